@@ -13,6 +13,11 @@ CHECKS = {
    note=TB + "A fitted learner is abstracted to its components_ matrix; binary64 finiteness and bitwise symmetry are checked on the implementation only.",
    technique="Lean 4 proof (norm/triangle inequality in EuclideanSpace) + differential correspondence model↔code",
    ref="§6 C01"),
+ 'C02': dict(
+   text="Theorems for all k,d,L over ℝ: pair_distance = sqrt((x'-x)ᵀ(LᵀL)(x'-x)) = Euclidean distance of the transformed points = get_metric closure; squared closure = square; transform linear; M=LᵀL symmetric and Matrix.PosSemidef; score_pairs = pair_distance. Tie: Float twin of transform / LᵀL / quadratic form / embedded distance run against the real API on every fitted estimator; implementation-only oracle compares the six views pairwise and all equivalent array-likes (list, int, Fortran, strided, single-pair, indices through array/list/callable preprocessor).",
+   note=TB + "Views are compared with tolerance 1e-9·scale, never bit-for-bit; score_pairs must equal pair_distance exactly.",
+   technique="Lean 4 proof (matrix algebra, posSemidef_conjTranspose_mul_self) + differential correspondence model↔code",
+   ref="§6 C02"),
 }
 
 NOT_YET = {}
